@@ -1008,7 +1008,72 @@ func c13LayoutFormat(p *core.Program, r *core.Report) {
 		}
 	}
 	r.Count("sprintf_then_parse_sites", n)
-	r.Require("sprintf_then_parse_sites", n, 1)
+	c13ValidityComponents(p, r)
+}
+
+// c13ValidityComponents: a function that builds a date from numbers it read out of text (dates.NewDate(y, m, d) with
+// non-constant components) and checks first that the three are valid together (time.Parse of a Sprintf of them, or
+// time.Date(...)) must check the very numbers it builds the date from: a check done with another year decides leap
+// days by the wrong year, and text that Format produced is rejected.
+func c13ValidityComponents(p *core.Program, r *core.Report) {
+	sites := 0
+	for _, fn := range p.ModuleFunctions() {
+		if core.RelPkg(core.FuncPkgPath(fn)) != "envs" {
+			continue
+		}
+		var built [][]ssa.Value
+		for _, cs := range core.Calls(fn, false) {
+			if o := core.CalleeObj(cs.Common()); o != nil && strings.HasSuffix(core.ObjName(o), "dates.NewDate") && len(cs.Common().Args) == 3 {
+				if _, isConst := cs.Common().Args[0].(*ssa.Const); !isConst {
+					built = append(built, cs.Common().Args)
+				}
+			}
+		}
+		if len(built) == 0 {
+			continue
+		}
+		same := func(a, b ssa.Value) bool { return core.StripConv(a) == core.StripConv(b) }
+		checks := 0
+		for _, cs := range core.Calls(fn, false) {
+			o := core.CalleeObj(cs.Common())
+			if o == nil {
+				continue
+			}
+			var y ssa.Value
+			switch core.ObjName(o) {
+			case "time.Date":
+				y = cs.Common().Args[0]
+			case "time.Parse", "time.ParseInLocation":
+				if sp, ok := cs.Common().Args[1].(*ssa.Call); ok {
+					if so := core.CalleeObj(&sp.Call); so != nil && core.ObjName(so) == "fmt.Sprintf" {
+						if vs := core.VariadicArgs(sp.Call.Args[len(sp.Call.Args)-1]); len(vs) > 0 {
+							y = vs[0]
+							if mi, ok := y.(*ssa.MakeInterface); ok {
+								y = mi.X
+							}
+						}
+					}
+				}
+			}
+			if y == nil {
+				continue
+			}
+			if _, isConst := y.(*ssa.Const); isConst {
+				continue
+			}
+			checks++
+			okYear := false
+			for _, b := range built {
+				if same(y, b[0]) {
+					okYear = true
+				}
+			}
+			r.Check(okYear, "R4", fn.Name()+"/validity-check-uses-the-year-it-builds", p.Pos(cs.Pos()), "the year checked is the year of the date returned", "the day/month/year validity check in "+fn.Name()+" is done with a different year than the date it then builds: leap days are decided by the wrong year, so a 29 February that Format writes is not read back")
+		}
+		sites += checks
+	}
+	r.Count("date_validity_checks", sites)
+	r.Require("date_validity_checks", sites, 1)
 }
 
 // ---------------------------------------------------------------------------------------------- R5
